@@ -921,6 +921,48 @@ def mon_projects(steps, meta):
     return None
 
 
+def mon_project_quiet(steps, meta):
+    """C01 for projects: a snapshot of a project appears only in a pass that runs at least the debounce in force after
+    the most recent accepted write to ANY file below the project's root (judged from the write events themselves, not
+    from the queue the daemon built)"""
+    deb = None
+    debs, bound = {}, None
+    clock = wc.CLOCK0
+    last = {}          # project name -> (time, path) of the latest accepted write below its root
+    prev = None
+    for st in steps:
+        if st.op == "cfg":
+            for t in st.tok[2:]:
+                if t.startswith("deb="):
+                    debs[st.tok[1]] = int(t[4:])
+        elif st.op == "cfgbind":
+            bound = st.tok[1]
+        elif st.op == "start" and st.result == "ok" and st.tok[1] in debs:
+            deb = debs[st.tok[1]]
+        elif st.op == "write" and st.result == "ok" and len(st.tok) > 2:
+            path = unhexs(st.tok[2])
+            if path == CANON_ROOT + "/w/cfg/klunok.lua" and bound in debs:
+                deb = debs[bound]
+            rel = path[len(CANON_ROOT):]
+            if any(l.split(" ")[1:2] == ["symlinkat"] for l in st.log):       # the write was accepted (queued)
+                for name, root in PROJECTS.items():
+                    if rel.startswith(root + "/"):
+                        last[name] = (clock, rel)
+        if st.op == "tick":
+            clock += int(st.tok[1])
+        if st.dump is None:
+            continue
+        cur = st.dump
+        if prev is not None and st.tag_same_env and deb is not None:
+            for sdir in [p for p, e in cur.items() if e[0] == "dir" and p not in prev and re.match(r"^/k/projects/[^/]+/[^/]+$", p)]:
+                name = sdir.split("/")[3]
+                if name in last and clock - last[name][0] < deb:
+                    return ("snapshot %s of project %s was taken at %d, only %d s after the write of %s at %d: the quiet period in force is %d s"
+                            % (sdir, name, clock, clock - last[name][0], last[name][1], last[name][0], deb))
+        prev = cur
+    return None
+
+
 def _snapshot_complete(cur, sdir, name, root):
     """every versioned member of the project that still exists is in the snapshot as a link to one of its versions"""
     pre = "/k/var/projects/%s/" % name
@@ -1261,7 +1303,7 @@ MONITORS.update({
     "queue_form": mon_queue_form, "journal": mon_journal, "faithful": mon_faithful, "history": mon_history,
     "bursts": mon_bursts, "projects": mon_projects, "recovery": mon_recovery, "no_partial": mon_no_partial,
     "fault_reported": mon_fault_reported, "resources": mon_resources, "expected_handled": mon_expected_handled,
-    "completed_exact": mon_completed_exact, "exec_completed": mon_exec_completed, "accepted_is_queued": mon_accepted_is_queued, "writes_queued": mon_writes_queued, "post_restart_ok": mon_post_restart_ok, "partial_snapshot": mon_partial_snapshot, "snapshot_members": mon_snapshot_members,
+    "completed_exact": mon_completed_exact, "exec_completed": mon_exec_completed, "accepted_is_queued": mon_accepted_is_queued, "project_quiet": mon_project_quiet, "writes_queued": mon_writes_queued, "post_restart_ok": mon_post_restart_ok, "partial_snapshot": mon_partial_snapshot, "snapshot_members": mon_snapshot_members,
 })
 
 
